@@ -1,1 +1,2 @@
 pub mod bigint;
+pub mod pyslice;
